@@ -263,6 +263,8 @@ def to_coq(c, o):
         return '(CWorld %s %s %s %s)' % (cz(c['cur0']), specs, clist(c['ops'], c_op), obs)
     if k == 'sweep':
         return '(CSweep %s %s %s %s)' % (cz(c['lo']), cnat(c['n']), c_rle(o['decoded']), c_rle(o['macros']))
+    if k == 'real' and 'crash' in o:
+        return '(CReal %s PReturn None false false true true)' % c['method'].capitalize()
     if k == 'real':
         return '(CReal %s %s %s %s %s %s %s)' % (
             c['method'].capitalize(), c_path(c['path'], o), copt(o['code']),
@@ -314,6 +316,8 @@ def describe(c, o, where):
             return 'wait status %d (0x%04x): Popen.poll reports %s' % (
                 s, s, 'AssertionError' if d == 0 else d - 1000)
         return 'wait statuses %d..%d' % (c['lo'], c['lo'] + c['n'] - 1)
+    if k == 'real' and 'crash' in o:
+        return '%s child ending by %s: the parent-side calls failed with %s' % (c['method'], c['path'], o['crash'])
     if k == 'real':
         return '%s child ending by %s: exitcode %r, alive/None before: %s/%s, still a child after join: %s, alive after: %s' % (
             c['method'], c['path'], o['code'], o['alive_before'] and o['child_before'], o['none_before'],
@@ -335,7 +339,7 @@ def nontrivial(c):
 
 def direct_monitors(res, c, o):
     """property clauses evaluated directly on the observation of a real child"""
-    if c['kind'] != 'real':
+    if c['kind'] != 'real' or 'crash' in o:
         return
     rp = dict(case=c, impl=o)
     if o['start_twice'] != 'assert':
@@ -416,7 +420,7 @@ def correspond(res, tier, nworld, nfs):
         paths[key] = paths.get(key, 0) + 1
     distinct = len({json.dumps(c, sort_keys=True) for c in cases if nontrivial(c)})
     nstat = sum(c['n'] for c in cases if c['kind'] == 'sweep')
-    codes_seen = sorted({o['code'] for c, o in zip(cases, outs) if c['kind'] == 'real' and o['code'] is not None})
+    codes_seen = sorted({o['code'] for c, o in zip(cases, outs) if c['kind'] == 'real' and o.get('code') is not None})
     wi = next(i for i, c in enumerate(cases) if c['kind'] == 'world' and i >= len(corpus) + 7)
     ri = next(i for i, c in enumerate(cases) if c['kind'] == 'real' and c['path'][0] == 'signal')
     res.add_cov(evaluations=len(cases) - kinds.get('sweep', 0) + nstat, distinct=distinct + nstat - kinds.get('sweep', 0),
@@ -429,7 +433,7 @@ def correspond(res, tier, nworld, nfs):
                      'counted once; real children one per (method, exit path); distinct by canonical JSON',
                 case_kinds=kinds, world_op_histogram=hist, real_children_by_method_and_path=paths,
                 statuses_swept=nstat, real_exit_codes_observed=len(codes_seen),
-                max_timed_join_s=max([o['timed_join_s'] for c, o in zip(cases, outs) if c['kind'] == 'real'] or [0]))
+                max_timed_join_s=max([o.get('timed_join_s', 0) for c, o in zip(cases, outs) if c['kind'] == 'real'] or [0]))
 
 
 def run(res):
